@@ -1,9 +1,10 @@
 from lib.runner import Ob
 from obligations.common import *
-from obligations.C05 import mk
+from obligations.C05 import mk, unregistered
 
 LEVEL_NOTE = ('bounded model checking of the real player (LLVM IR route) on concrete-shape states reached through the real API: after a concrete prefix '
               'of calls one symbolic operation is applied and the voice-allocation bookkeeping invariant (note <-> user back references, uniqueness, '
-              'gliding/extended counters, bank pointers, keyed-on <=> has a user) is asserted after every call; bounded histories only')
+              'gliding/extended counters, bank pointers, keyed-on <=> has a user) is asserted on the real lists; bounded histories only')
 
 OBLIGATIONS = mk('C04', 'ONLY_C04')
+UNREGISTERED = unregistered('C04', 'ONLY_C04')
